@@ -184,7 +184,7 @@ func (w *World) StartGeneric(lot, minBid int64) (err error) {
 
 type errS string
 
-func (e errS) Error() string { return string(e) }
+func (e errS) Error() string          { return string(e) }
 func sprintf2err(r interface{}) error { return errS(sprintf("panic: %v", r)) }
 
 // SeedFees is the environment's stand-in for fee income in world A (world C uses the real vault messages):
